@@ -30,9 +30,10 @@ const (
 	opYield
 	opResume
 	opSelect
+	opCond
 )
 
-var opNames = [...]string{"start", "send", "recv", "close", "lock", "rlock", "wgwait", "sleep", "yield", "resume", "select"}
+var opNames = [...]string{"start", "send", "recv", "close", "lock", "rlock", "wgwait", "sleep", "yield", "resume", "select", "condwait"}
 
 type op struct {
 	kind  opKind
@@ -44,6 +45,8 @@ type op struct {
 	wake  time.Time
 	label string
 	rw    bool // the lock operation is on an RWMutex
+	cond   *condState
+	ticket int
 	// select
 	cases      []selCase
 	hasDefault bool
@@ -97,6 +100,12 @@ type muState struct {
 	writer  bool
 	readers int
 	hist    uint64 // acquisition order (data guarded by the lock is a function of it)
+}
+
+type condState struct {
+	next    int
+	waiting []int
+	woken   []int
 }
 
 type wgState struct {
@@ -166,6 +175,7 @@ type Sched struct {
 	chans     map[interface{}]*chanState
 	mus       map[interface{}]*muState
 	wgs       map[interface{}]*wgState
+	conds     map[interface{}]*condState
 	now       time.Time
 	prefix    []int
 	x         *X
@@ -314,6 +324,9 @@ func (s *Sched) stateKey(env bool) uint64 {
 					h = mix(h, uint64(c.ch.id)+1, c.vh)
 				}
 			}
+			if t.pend.kind == opCond {
+				h = mix(h, uint64(t.pend.ticket))
+			}
 		}
 	}
 	ids := make([]*chanState, len(s.chans))
@@ -351,6 +364,14 @@ func (s *Sched) stateKey(env bool) uint64 {
 	}
 	for _, w := range ws {
 		h = mix(h, uint64(w.n)+9)
+	}
+	if len(s.conds) > 0 {
+		// condition variables: order-insensitive digest of waiting and woken tickets
+		var d uint64
+		for _, c := range s.conds {
+			d += mix(uint64(len(c.waiting))+1, uint64(len(c.woken)), uint64(c.next))
+		}
+		h = mix(h, d)
 	}
 	h = mix(h, uint64(s.now.UnixNano()))
 	return h
@@ -536,6 +557,13 @@ func (s *Sched) enabled(t *thread) bool {
 		return true
 	case opWait:
 		return o.wg.n == 0
+	case opCond:
+		for _, w := range o.cond.woken {
+			if w == o.ticket {
+				return true
+			}
+		}
+		return false
 	}
 	return false
 }
